@@ -13,10 +13,12 @@ def _scan_directory(path, eapi):
     for filename in listdir_files(path):
         match = eapi.options.update_regex.match(filename)
         if match is not None:
-            files.append(filename)
+            # quarter-named files ([1-4]Q-yyyy) are processed chronologically, i.e.
+            # by (year, quarter); free-form names (EAPI 8) fall back to name order
+            files.append((match.groups()[::-1], filename))
         else:
             logger.error(f"incorrectly named update file: {filename!r}")
-    return sorted(files)
+    return [filename for _key, filename in sorted(files)]
 
 
 def read_updates(path, eapi):
